@@ -199,9 +199,22 @@ pub fn run(tier: Tier) -> i32 {
             };
         }
         b = b.with_function(probe("f", true, &h)).expect("function f");
+        // every symbol is first registered with a stale value through with_symbol and then
+        // re-registered with its real value through one with_symbols batch (latest wins)
+        let mut batch = Symbols::default();
         for (k, v) in syms {
-            b = b.with_symbol(k, v.to_value());
+            b = b.with_symbol(k, Value::String("stale".into()));
+            batch.insert(k, v.to_value());
         }
+        batch.insert("unrelated1", Value::Int(1));
+        batch.insert("unrelated2", Value::Int(2));
+        b = match b.with_symbols(batch) {
+            Ok(b) => b,
+            Err(e) => {
+                rep.acc.machinery(format!("with_symbols: {e}"));
+                return rep.finish();
+            }
+        };
         let rs = b.build();
         // symbol- and function-rooted paths do not depend on the input: check them against one input only
         let acc = inputs
